@@ -65,16 +65,18 @@ class PhasesTouched(Exception):
 
 
 def make_stabilizer(stmod, R, S, phases=None, poison_phases=False):
-    """build the instrumented library's Stabilizer object directly (constructor formats are C14's subject)"""
+    """build the instrumented library's Stabilizer through its REAL constructor (matrix-tuple format; the other
+    formats are C14's subject).  With poison_phases the sign vector raises PhasesTouched on any later read."""
     cls = stmod.Stabilizer
     if poison_phases:
         cls = _poisoned(cls)
-    s = cls.__new__(cls)
-    s.R = R
-    s.S = S
-    s.num_qubits = int(np.ndarray.__getattribute__(R, "shape")[0])
-    if not poison_phases:
-        s.phases = phases if phases is not None else symnp.npx.zeros(s.num_qubits, dtype=np.int8)
+    n = int(np.ndarray.__getattribute__(R, "shape")[0])
+    if phases is None:
+        s = cls((R, S))
+    else:
+        s = cls((R, S, phases))
+    if poison_phases:
+        s._poison_armed = True
     return s
 
 
@@ -84,9 +86,17 @@ _poison_cache = {}
 def _poisoned(cls):
     if cls not in _poison_cache:
         class Poisoned(cls):
+            _poison_armed = False
+
             @property
             def phases(self):
-                raise PhasesTouched("the signs of the generators were read")
+                if self._poison_armed:
+                    raise PhasesTouched("the signs of the generators were read")
+                return self.__dict__.get("_ph")
+
+            @phases.setter
+            def phases(self, v):
+                self.__dict__["_ph"] = v
         Poisoned.__name__ = cls.__name__
         _poison_cache[cls] = Poisoned
     return _poison_cache[cls]
